@@ -850,6 +850,8 @@ def run_case(case, fail, stats):
             if back[0] == "ok" and (d1 != d0 or (snapshot(box2) != sb and "nan" not in json.dumps([sb, snapshot(box2)]))):
                 fail("C11", kind + "-own-dump-not-a-fixpoint", {"dump": d0[1], "after_reload": d1[1] if d1[0] == "ok" else d1,
                                                                 "case": {k: case[k] for k in case if k != "vals"}})
+    elif kind in MORE_KINDS:
+        run_case_more(case, fail, stats)
     else:
         raise ValueError(kind)
 
@@ -1315,6 +1317,9 @@ def cases_c04(rng, n):
         for operand in ({"int": 2}, {"int": 0}):
             yield {"kind": "iop", "vals": {"v0": {"int": 12}, "v1": {"int": 3}, "v2": {"int": 3}, "v3": {"int": 2}}, "iop": op,
                    "name": "L", "operand": ["lit", operand], "child_def": [0, ["bin", "mul", ["ref", "v1"], ["lit", {"int": 2}]]]}
+    # sequences of in-place statements on old definitions of every shape, inexact float data
+    yield from more_c04_fixed()
+    rng2 = side_rng(rng)
     for i in range(n):
         vals = gen_vals(rng)
         t = gen_term(rng, rng.randint(1, 5))
@@ -1322,6 +1327,8 @@ def cases_c04(rng, n):
         if rng.random() < 0.4:
             c["then"] = [rng.choice(NAMES), gen_val(rng)]
         yield c
+        if i % 12 == 5:
+            yield gen_iopseq(rng2)
 
 
 def cases_c05(rng, n):
@@ -1458,7 +1465,12 @@ def cases_c12(rng, n):
             yield {"kind": "pickle", "vals": vals, "term": t}
             yield {"kind": "mgrpickle", "vals": vals, "defs": [t, ["bin", "add", ["ref", "v2"], ["lit", {"int": 1}]]],
                    "follow": [["v0", {"float": (0.7).hex()}], ["v1", {"int": 20}], ["v0", {"float": (17.0).hex()}]]}
+    # managers pickled in every state the API reaches (frozen included), follow-ups that are events
+    yield from more_c12_fixed()
+    rng2 = side_rng(rng)
     for i in range(n):
+        if i % 8 == 3:
+            yield gen_mgrstate(rng2)
         vals = gen_vals(rng, ["int", "float"])
         if rng.random() < 0.5:
             yield {"kind": "pickle", "vals": vals, "term": gen_term(rng, rng.randint(1, 4))}
@@ -1557,6 +1569,8 @@ def cases_c06(rng, n):
         lab = rng.choice(["g", "h", "e", "vars", "c['a']", "a.b"])
         yield {"kind": "rooteq", "how": [rng.choice(["refattr", "ref"]), rng.choice(["refattr", "refattr", "ref"])],
                "other": rng.choice(["manager2", "manager2", "pickle", "deepcopy"]), "label": lab, "label2": rng.choice([lab, lab, "g", "h"])}
+    # keys that are == and hash alike but differ in type, alone and inside tuple keys
+    yield from more_c06(rng)
 
 
 PRINT_OPS = ARITH * 3 + BITS + CMPS
@@ -1696,6 +1710,9 @@ def cases_c11(rng, n):
             c["shadow_outer"] = True
             c["overwrite"] = False
         yield c
+    # load / copy_expr_from into managers made by clone() / copy() that have diverged from their origin
+    yield from more_c11_fixed()
+    rng2 = side_rng(rng)
     k = 0
     while k < n:
         vals = gen_vals(rng, ["int", "float"])
@@ -1717,6 +1734,652 @@ def cases_c11(rng, n):
             t = ["bin", rng2.choice(PRINT_OPS), t0, gen_keyleaf(rng2)]
         k += 1
         yield {"kind": "print", "vals": gen_vals(rng2, ["int", "float"]), "term": t, "keys": True}
+        if k % 20 == 7:
+            yield gen_cloneload(rng2)
+
+
+# ----------------------------------------------------------------------------
+# further case kinds (oracle only, no model line: their `pexpr` stays None)
+#   iopseq    C04  SEQUENCES of in-place statements on one location (old definition or old value), inexact float data
+#   mgrstate  C12  managers pickled in every state the API reaches (frozen, after a frozen period, twice), follow-ups that
+#                  are events (assignments, re-definitions, freeze / unfreeze, verify) mirrored on original and copy
+#   cloneload C11  load / copy_expr_from INTO a manager made by clone() / copy() that has since diverged from its origin
+#   eqtyped, eqfamily  C06  keys compared by value AND type at every depth of a tuple key
+# ----------------------------------------------------------------------------
+MORE_KINDS = ("iopseq", "mgrstate", "cloneload", "eqtyped", "eqfamily")
+
+
+def bump(stats, key, by=1):
+    stats[key] = stats.get(key, 0) + by
+
+
+def side_rng(rng):
+    """a second generator derived from the state of `rng` WITHOUT drawing from it (the cases generated from `rng` stay
+    what they were)"""
+    st = rng.getstate()[1]
+    return random.Random(sum(int(x) << (32 * i) for i, x in enumerate(st[:6])) + 12345)
+
+
+def outcomes_agree(got, want):
+    if got[0] != want[0]:
+        return False
+    if got[0] == "exc":
+        return got[1] == want[1]
+    return same(got[1], want[1])
+
+
+def run_iopseq(case, fail, stats):
+    """`x = <old definition or value>; x op1= k1; x op2= k2; ...`: after EVERY statement the location holds, and its
+    definition evaluates to, what Python computes when it executes the same statements on the operand values (value and
+    type; division by zero -> NaN once a reference is involved); once more after an operand changed through the manager"""
+    env = Env(case["vals"])
+    name = case["name"]
+    expr_t = case.get("expr")
+    if expr_t is not None:
+        if outcome(lambda: env.r.__setitem__(name, env.build(expr_t)))[0] != "ok":
+            return
+        if not has_ref(expr_t) or env.r[name]._expr is None:
+            return
+    full = expr_t           # the mirrored definition; None while the location holds a plain value
+    bump(stats, "iopseq_cases")
+    bump(stats, "iop_cases")
+    info = {"name": name, "expr": expr_t, "steps": case["steps"], "vals": case["vals"]}
+    for si, (op, operand_t) in enumerate(case["steps"]):
+        oldv = env.box[name]
+        ntasks0 = len(env.m.tasks)
+        operand = env.build(operand_t)
+        value_case = full is None and not has_ref(operand_t)
+        if value_case:
+            nxt = None
+            want = outcome(lambda: BIN[op](oldv, env.direct(operand_t)))
+        else:
+            if full is None:
+                try:
+                    base = ["lit", val_json(oldv)]
+                except ValueError:
+                    return
+                if "np" in base[1] or "arr" in base[1]:
+                    return          # a numpy value standing to the left of a reference: numpy owns the operator
+            else:
+                base = full
+            nxt = ["bin", op, base, operand_t]
+            want = outcome(lambda: env.direct(nxt))
+
+        def do():
+            tmp = env.r[name]
+            tmp = IOP[op](tmp, operand)
+            env.r[name] = tmp
+        got = outcome(do)
+        bump(stats, "iopseq_statements")
+        if got[0] != want[0] or (got[0] == "exc" and got[1] != want[1]):
+            fail("C04", "inplace-sequence-outcome", dict(info, step=si, got=[got[0], describe(got[1])], python=[want[0], describe(want[1])]))
+            return
+        if got[0] != "ok":
+            return          # both raised the same exception: the update stopped half way, nothing further to compare
+        if not same(env.box[name], want[1]):
+            fail("C04", "inplace-sequence-value", dict(info, step=si, got=describe(env.box[name]), python=describe(want[1])))
+            return
+        e = env.r[name]._expr
+        if value_case:
+            if e is not None or len(env.m.tasks) != ntasks0:
+                fail("C04", "inplace-sequence-value-case-registers", dict(info, step=si, registered=str(e)))
+                return
+        else:
+            if e is None:
+                fail("C04", "inplace-sequence-lost-expression", dict(info, step=si))
+                return
+            ev = outcome(e._get_value)
+            if not outcomes_agree(ev, want):
+                fail("C04", "inplace-sequence-wrong-expression", dict(info, step=si, registered=str(e),
+                                                                      evaluates_to=describe(ev[1]), python=describe(want[1])))
+                return
+            full = nxt
+    for nm, vj in case.get("then", []):
+        if nm == name or outcome(lambda: env.r.__setitem__(nm, val_py(vj)))[0] != "ok":
+            return
+        if full is None:
+            continue
+        want = outcome(lambda: env.direct(full))
+        e = env.r[name]._expr
+        if want[0] != "ok" or e is None:
+            return
+        bump(stats, "iopseq_after_update")
+        ev = outcome(e._get_value)
+        if not same(env.box[name], want[1]) or not outcomes_agree(ev, want):
+            fail("C04", "inplace-sequence-after-update", dict(info, changed=[nm, vj], holds=describe(env.box[name]),
+                                                              evaluates_to=describe(ev[1]), python=describe(want[1])))
+            return
+
+
+def run_mgrstate(case, fail, stats):
+    """C12 for a manager in whatever state the history left it in when it was pickled: the restored manager has the same
+    definitions, passes verify(), and every further EVENT (assignment, re-definition, definition replaced by a value, new
+    definition, freeze / unfreeze, verify) ends the same way on both (done / class of the exception) and leaves the same
+    contents and definitions; no event on one is seen by the other"""
+    env = Env(case["vals"])
+    del env.box["o"]
+    if case.get("refattr"):
+        env.m = xdeps.Manager()
+        env.r = env.m.refattr(env.box, "r")
+        env.f = env.m.ref(dict(FUNCS), "f")
+    ndefs = 0
+    for i, t in enumerate(case["defs"]):
+        env.box["out%d" % i] = None
+        if outcome(lambda: env.r.__setitem__("out%d" % i, env.build(t)) if isinstance(env.build(t), R.BaseRef)
+                   else (_ for _ in ()).throw(ValueError()))[0] == "ok":
+            ndefs += 1
+    if not ndefs:
+        return
+
+    def apply(e, ev):
+        k = ev[0]
+        if k == "set":
+            e.r[ev[1]] = val_py(ev[2])
+        elif k == "def":
+            e.r["out%d" % ev[1]] = e.build(ev[2])
+        elif k == "val":
+            e.r["out%d" % ev[1]] = val_py(ev[2])
+        elif k == "freeze":
+            e.m.freeze_tree()
+        elif k == "unfreeze":
+            e.m.unfreeze_tree()
+        elif k == "verify":
+            quiet(e.m.verify)
+        else:
+            raise ValueError(ev)
+
+    frozen = False          # what the history says (for the statistics only; the oracle never reads the flag)
+    for ev in case.get("prep", []):
+        r = outcome(lambda: apply(env, ev))
+        if r[0] == "ok" and ev[0] in ("freeze", "unfreeze"):
+            frozen = ev[0] == "freeze"
+    bump(stats, "mgrstate_cases")
+    bump(stats, "mgrpickle_cases")
+    bump(stats, "mgrstate_pickled_frozen", int(frozen))
+    info = {"defs": case["defs"], "prep": case.get("prep", []), "trips": case.get("trips", 1), "refattr": bool(case.get("refattr"))}
+    before = (snapshot(env.box), outcome(env.m.dump))
+
+    def trip():
+        m = env.m
+        for _ in range(case.get("trips", 1)):
+            m = pickle.loads(pickle.dumps(m))
+        return m
+    back = outcome(trip)
+    if back[0] != "ok":
+        fail("C12", "manager-pickle-raises", dict(info, exc=back[1]))
+        return
+    m2 = back[1]
+    if (snapshot(env.box), outcome(env.m.dump)) != before:
+        fail("C12", "pickling-changes-the-original", info)
+        return
+    if outcome(m2.dump) != before[1]:
+        fail("C12", "manager-definitions-differ", info)
+        return
+    v1, v2 = outcome(lambda: quiet(env.m.verify)), outcome(lambda: quiet(m2.verify))
+    if v1[0] == "ok" and v2[0] != "ok":
+        fail("C12", "restored-manager-fails-verify", dict(info, exc=v2[1]))
+        return
+    r2 = m2.containers["r"]
+    box2 = r2._owner
+    env2 = Env.__new__(Env)
+    env2.__dict__.update(env.__dict__)
+    env2.m, env2.r, env2.box = m2, r2, box2
+    if "f" in m2.containers:
+        env2.f = m2.containers["f"]
+    if box2 is env.box or snapshot(box2) != before[0]:
+        fail("C12", "restored-contents-differ", dict(info, original=before[0], copy=snapshot(box2)))
+        return
+    state = lambda e: (snapshot(e.box), outcome(e.m.dump))
+    for fi, ev in enumerate(case.get("follow", [])):
+        s1 = state(env)
+        u2 = outcome(lambda: apply(env2, ev))
+        if state(env) != s1:
+            fail("C12", "copy-affects-original", dict(info, follow=case["follow"][:fi + 1]))
+            return
+        s2 = state(env2)
+        u1 = outcome(lambda: apply(env, ev))
+        if state(env2) != s2:
+            fail("C12", "original-affects-copy", dict(info, follow=case["follow"][:fi + 1]))
+            return
+        if u1 != u2:
+            fail("C12", "copies-end-an-event-differently", dict(info, follow=case["follow"][:fi + 1], original=list(u1), copy=list(u2)))
+            return
+        bump(stats, "mgrstate_followups")
+        if u1[0] != "ok":
+            bump(stats, "mgrstate_refused_on_both")
+            if ev[0] == "set":
+                return      # an update that stopped half way (C18's subject); a refused change of the graph goes on
+        s1, s2 = state(env), state(env2)
+        if s1[0] != s2[0] and "nan" not in json.dumps([s1[0], s2[0]]):
+            fail("C12", "copies-diverge", dict(info, follow=case["follow"][:fi + 1], original=s1[0], copy=s2[0]))
+            return
+        if s1[1] != s2[1]:
+            fail("C12", "manager-definitions-differ-after-events", dict(info, follow=case["follow"][:fi + 1],
+                                                                         original=s1[1][1], copy=s2[1][1]))
+            return
+    v1, v2 = outcome(lambda: quiet(env.m.verify)), outcome(lambda: quiet(m2.verify))
+    if v1[0] == "ok" and v2[0] != "ok":
+        fail("C12", "restored-manager-fails-verify-after-events", dict(info, follow=case.get("follow"), exc=v2[1]))
+
+
+def run_cloneload(case, fail, stats):
+    """C11 with a RECEIVING manager that was made by clone() / copy() of a working manager and has since been changed:
+    after the same calls (load / copy_expr_from with either overwrite, a definition replaced by a value or by another
+    expression) it holds the definitions a fresh manager over equivalent containers holds (which are also those a plain
+    dictionary of texts prescribes: kept when overwrite is False, replaced otherwise), every call ends the same way,
+    verify() passes, and later assignments leave the same contents"""
+    import copy
+    work = Env(case["vals"])
+    del work.box["o"]
+    spare = {"out%d" % k: 0.5 for k in range(4)}        # every target exists as a plain location before it is defined
+    work.box.update(spare)
+    for tgt, t in case["base"]:
+        if outcome(lambda: work.r.__setitem__(tgt, work.build(t)))[0] != "ok" or work.r[tgt]._expr is None:
+            return
+    made = outcome(work.m.clone if case["how"] == "clone" else work.m.copy)
+    if made[0] != "ok":
+        return              # clone() / copy() themselves are not C11's subject
+    recv = made[1]
+    data = recv.containers["r"]._owner
+    tw = xdeps.Manager()
+    tbox = copy.deepcopy(data)
+    tw.ref(tbox, "r")
+    tw.ref(dict(FUNCS), "f")
+    if outcome(lambda: tw.load(work.m.dump()))[0] != "ok":
+        return
+    if sorted(tw.dump()) != sorted(recv.dump()):
+        return              # dump -> fresh manager is judged by the dumpload cases
+
+    def view(m, box):
+        e = Env.__new__(Env)
+        e.__dict__.update(work.__dict__)
+        e.m, e.r, e.f, e.box = m, m.containers["r"], m.containers["f"], box
+        return e
+    sides = [view(recv, data), view(tw, tbox)]
+    expected = dict(recv.dump())        # the plain dictionary of texts
+    norm = lambda text: str(eval(text, {"math": math}, dict(tw.containers)))
+    bump(stats, "cloneload_cases")
+    bump(stats, "cloneload_" + case["how"])
+    info = {k: case[k] for k in ("how", "base", "events") if k in case}
+
+    def source(pairs):
+        src = Env(case["vals"])
+        del src.box["o"]
+        src.box.update(spare)
+        for tgt, t in pairs:
+            src.r[tgt] = src.build(t)
+        return src
+
+    for ei, ev in enumerate(case["events"]):
+        k = ev[0]
+        if k in ("load", "copyfrom"):
+            s = outcome(lambda: source(ev[1]))
+            if s[0] != "ok":
+                return
+            src = s[1]
+            pairs = src.m.dump()
+            if k == "load":
+                res = [outcome(lambda: e.m.load(pairs, overwrite=ev[2])) for e in sides]
+            else:
+                pairs = list(src.m.iter_expr_tasks_owner(src.m.containers["r"]))
+                res = [outcome(lambda: e.m.copy_expr_from(src.m, "r", {src.m.containers["r"]: e.r}, overwrite=ev[2])) for e in sides]
+
+            def prescribe():
+                for lhs, rhs in pairs:
+                    lhs, rhs = norm(lhs), norm(rhs)
+                    if lhs in expected and not ev[2]:
+                        continue
+                    expected[lhs] = rhs
+        elif k == "setval":
+            res = [outcome(lambda: e.m.set_value(e.r[ev[1]], val_py(ev[2]))) for e in sides]
+            prescribe = lambda: expected.pop(str(tw.containers["r"][ev[1]]), None)
+        elif k == "setexpr":
+            res = [outcome(lambda: e.m.set_value(e.r[ev[1]], e.build(ev[2]))) for e in sides]
+            prescribe = lambda: expected.__setitem__(str(tw.containers["r"][ev[1]]), str(sides[1].build(ev[2])))
+        elif k == "poke":
+            prescribe = lambda: None
+            res = [outcome(lambda: e.m.set_value(e.r[ev[1]], val_py(ev[2]))) for e in sides]
+        else:
+            raise ValueError(ev)
+        bump(stats, "cloneload_events")
+        if res[0] != res[1] and case["how"] != "clone" and k not in ("load", "copyfrom"):
+            return      # a call that EVALUATES: the definitions a copy() arrives with read a container of their own (copy()
+                        # deep-copies containers and tasks separately), so whether one of them raises depends on other values
+        if res[0] != res[1]:
+            fail("C11", "cloned-manager-ends-a-call-differently", dict(info, upto=ei, received=list(res[0]), fresh=list(res[1])))
+            return
+        if res[0][0] != "ok" or outcome(prescribe)[0] != "ok":
+            return
+        d0, d1 = outcome(lambda: sorted(recv.dump())), outcome(lambda: sorted(tw.dump()))
+        if d0 != d1:
+            fail("C11", "cloned-manager-definitions-differ", dict(info, upto=ei, received=d0[1], fresh=d1[1]))
+            return
+        if d1[0] == "ok" and dict(d1[1]) != expected:
+            fail("C11", "overwrite-rule-not-followed", dict(info, upto=ei, holds=d1[1], prescribed=sorted(expected.items())))
+            return
+        v0, v1 = outcome(lambda: quiet(recv.verify)), outcome(lambda: quiet(tw.verify))
+        if v1[0] == "ok" and v0[0] != "ok":
+            fail("C11", "cloned-manager-fails-verify", dict(info, upto=ei, exc=v0[1]))
+            return
+    if case["how"] != "clone":
+        return      # the definitions a copy() arrives with compute on a container of their own: reactions are compared for clones
+    for nm, vj in case.get("pokes", []):
+        res = [outcome(lambda: e.m.set_value(e.r[nm], val_py(vj))) for e in sides]
+        if res[0] != res[1]:
+            fail("C11", "cloned-manager-followup-exception", dict(info, assign=[nm, vj], received=list(res[0]), fresh=list(res[1])))
+            return
+        if res[0][0] != "ok":
+            return
+        bump(stats, "cloneload_followups")
+        s0, s1 = snapshot(data), snapshot(tbox)
+        if s0 != s1:
+            fail("C11", "cloned-manager-followup-differs", dict(info, assign=[nm, vj], received=s0, fresh=s1))
+            return
+
+
+def key_ident(k):
+    """a key as C06 compares it: by value AND type, at every depth of a tuple"""
+    if isinstance(k, tuple):
+        return ("tuple",) + tuple(key_ident(x) for x in k)
+    return (type(k).__name__, k)
+
+
+def path_ident(steps):
+    return tuple((kind, key_ident(key_py(k)) if kind == "i" else ("attr", k)) for kind, k in steps)
+
+
+def has_numpy_key(steps):
+    def np_in(k):
+        return isinstance(k, np.generic) or (isinstance(k, tuple) and any(np_in(x) for x in k))
+    return any(kind == "i" and np_in(key_py(k)) for kind, k in steps)
+
+
+WRAP = {None: lambda r: r, "mul2": lambda r: r * 2, "neg": lambda r: -r, "abs": lambda r: abs(r),
+        "item0": lambda r: (r + 1)[0]}
+
+
+def run_eqtyped(case, fail, stats):
+    """one pair of independently built references (optionally each below the same expression): equal (both ways), equal
+    hashes, same dict / set entry if and only if the two paths are the same with keys compared by value and type"""
+    lab, lab2 = case.get("label", "c"), case.get("label2", case.get("label", "c"))
+    p = mkpath(xdeps.Manager().ref({}, lab), case["p"])
+    q = mkpath(xdeps.Manager().ref({}, lab2), case["q"])
+    w = WRAP[case.get("wrap")]
+    p, q = w(p), w(q)
+    if has_numpy_key(case["p"]) or has_numpy_key(case["q"]):
+        return          # numpy scalar against builtin number: no verdict (see numpy_twin)
+    same_path = lab == lab2 and path_ident(case["p"]) == path_ident(case["q"])
+    bump(stats, "eq_typed_pairs")
+    bump(stats, "eq_pairs")
+    bump(stats, "eq_equal_pairs", int(same_path))
+    eq, qe, heq = (p == q), (q == p), (hash(p) == hash(q))
+    indict, inset = q in {p: 1}, q in {p}
+    obs = {"p": case["p"], "q": case["q"], "wrap": case.get("wrap"), "eq": eq, "eq_reversed": qe, "hash_eq": heq,
+           "in_dict": indict, "in_set": inset, "printed": [str(p), str(q)]}
+    if same_path:
+        if not (eq is True and qe is True and heq and indict and inset):
+            fail("C06", "same-typed-path-not-identified", obs)
+    elif eq or qe or indict or inset:
+        fail("C06", "paths-differing-in-key-type-identified", obs)
+
+
+def run_eqfamily(case, fail, stats):
+    """a family of paths built twice, each reference from a manager of its own: all pairs, and one dictionary holding one
+    entry per distinct path that an independently built reference must find again (and no other)"""
+    paths = [p for p in case["paths"] if not has_numpy_key(p)]
+    first = [mkpath(xdeps.Manager().ref({}, "c"), p) for p in paths]
+    second = [mkpath(xdeps.Manager().ref({}, "c"), p) for p in paths]
+    ids = [path_ident(p) for p in paths]
+    bump(stats, "eq_family_cases")
+    nfail = 0
+    for i, r in enumerate(first):
+        for j, s in enumerate(second):
+            sm = ids[i] == ids[j]
+            eq = (r == s)
+            bump(stats, "eq_typed_pairs")
+            bump(stats, "eq_pairs")
+            bump(stats, "eq_equal_pairs", int(sm))
+            if eq != sm or (sm and hash(r) != hash(s)) or (s == r) != eq:
+                nfail += 1
+                if nfail <= 3:
+                    fail("C06", "same-typed-path-not-identified" if sm else "paths-differing-in-key-type-identified",
+                         {"p": paths[i], "q": paths[j], "eq": eq, "eq_reversed": (s == r), "hash_eq": hash(r) == hash(s),
+                          "printed": [str(r), str(s)]})
+    table = {}
+    for i, r in enumerate(first):
+        if r in table:
+            if ids[table[r]] != ids[i]:
+                nfail += 1
+                if nfail <= 6:
+                    fail("C06", "distinct-paths-share-a-dict-entry", {"p": paths[i], "q": paths[table[r]],
+                                                                       "printed": [str(r), str(first[table[r]])]})
+        else:
+            table[r] = i
+    for j, s in enumerate(second):
+        got = table.get(s)
+        if got is None or ids[got] != ids[j]:
+            nfail += 1
+            if nfail <= 9:
+                fail("C06", "dict-selects-another-path", {"q": paths[j], "selected": None if got is None else paths[got]})
+
+
+def run_case_more(case, fail, stats):
+    {"iopseq": run_iopseq, "mgrstate": run_mgrstate, "cloneload": run_cloneload, "eqtyped": run_eqtyped,
+     "eqfamily": run_eqfamily}[case["kind"]](case, fail, stats)
+
+
+# ---- generators of the further kinds ----
+def fj(x):
+    return {"float": float(x).hex()}
+
+
+INEXACT = [0.1, 0.3, 0.7, 1.1, -2.7, 1e-3, 2.5, 1.0 / 3.0, 1e16 + 2.0, 123.456]
+
+
+def more_c04_fixed():
+    """old definitions `e + int`, `e * int` (and their neighbours: reflected, float / bool constant, other operator, a call,
+    a plain value) x in-place statements with int / float / bool operands, one or two in a row, on float and int data"""
+    a = ["ref", "v1"]
+    i_ = lambda n: ["lit", {"int": n}]
+    f_ = lambda x: ["lit", fj(x)]
+    olds = [None, ["un", "pos", a], ["bin", "add", a, f_(0.1)], ["bin", "add", a, i_(3)], ["bin", "add", a, i_(10 ** 16)],
+            ["bin", "add", f_(0.1), a], ["bin", "add", i_(3), a], ["bin", "sub", a, f_(0.1)], ["bin", "sub", a, i_(3)],
+            ["bin", "mul", a, f_(0.1)], ["bin", "mul", a, i_(7)], ["bin", "mul", a, i_(3)], ["bin", "mul", i_(3), a],
+            ["bin", "truediv", a, f_(0.1)], ["builtin", "abs", a, []], ["bin", "add", a, ["lit", {"bool": True}]],
+            ["bin", "add", ["bin", "mul", a, ["ref", "v2"]], i_(3)], ["bin", "mul", ["bin", "add", a, f_(0.5)], i_(3)],
+            ["bin", "mul", ["call", "fadd", [a], [["y", ["ref", "v2"]]]], i_(3)]]
+    steps = [f_(0.2), i_(3), i_(7), i_(-10 ** 16), f_(1e200), ["lit", {"bool": True}]]
+    seqs = [[[op, k]] for op in ("add", "mul") for k in steps]
+    seqs += [[[op, k1], [op, k2]] for op in ("add", "mul") for k1 in steps[:4] for k2 in (steps[1], steps[3], steps[0])]
+    seqs += [[[o1, i_(3)], [o2, i_(7)]] for o1, o2 in (("add", "mul"), ("mul", "add"), ("sub", "add"), ("add", "sub"), ("mul", "truediv"))]
+    seqs += [[["add", i_(1)], ["add", i_(1)], ["add", i_(1)]], [["mul", i_(3)], ["mul", i_(3)], ["mul", i_(3)]],
+             [["add", ["ref", "v3"]], ["add", i_(3)]], [["mul", ["ref", "v3"]], ["mul", i_(3)]]]
+    others = [[[op, k]] for op in ARITH if op not in ("add", "mul") for k in steps]
+    few = [[[op, k]] for op in ("add", "mul") for k in steps[1:4]] + [[[op, i_(3)], [op, i_(7)]] for op in ("add", "mul")]
+    for (a0, a1), olds_, seqs_ in [((0.1, 0.3), olds, seqs), ((3, 7), olds, seqs), ((0.1, 0.3), olds[:6], others), ((1.0, -2.5), olds, few)]:
+        for old in olds_:
+            for seq in seqs_:
+                yield {"kind": "iopseq", "name": "x", "expr": old, "steps": seq, "then": [["v1", val_json(a1)]],
+                       "vals": {"x": val_json(a0), "v0": {"int": 0}, "v1": val_json(a0), "v2": fj(0.7), "v3": {"int": 2}}}
+
+
+def gen_iopseq(rng):
+    vals = {n: (fj(rng.choice(INEXACT)) if rng.random() < 0.7 else gen_val(rng, rng.choice(["int", "float", "bool"]))) for n in NAMES}
+    vals["x"] = fj(rng.choice(INEXACT)) if rng.random() < 0.6 else {"int": rng.choice(INTS)}
+    small = lambda: ["lit", {"int": rng.choice([1, 2, 3, 5, 7, 10, -3, 10 ** 16, -10 ** 16])}]
+    old = None
+    if rng.random() < 0.85:
+        old = gen_term(rng, rng.randint(0, 2), ARITH)
+        if rng.random() < 0.7:
+            old = ["bin", rng.choice(["add", "add", "mul", "mul", "sub"]), old, small()]
+    steps = []
+    for _ in range(rng.randint(1, 3)):
+        op = rng.choice(["add", "add", "add", "mul", "mul", "mul", "sub", "truediv", "floordiv", "mod", "pow"])
+        x = rng.random()
+        if op == "pow":
+            k = ["lit", {"int": rng.choice([0, 1, 2, 3])}]
+        elif x < 0.6:
+            k = small()
+        elif x < 0.75:
+            k = ["lit", fj(rng.choice(INEXACT))]
+        elif x < 0.85:
+            k = ["lit", {"bool": rng.random() < 0.5}]
+        else:
+            k = ["ref", rng.choice(NAMES)]
+        steps.append([op, k])
+    return {"kind": "iopseq", "name": "x", "expr": old, "steps": steps, "vals": vals,
+            "then": [[rng.choice(NAMES), fj(rng.choice(INEXACT)) if rng.random() < 0.7 else gen_val(rng, "int")]]}
+
+
+def more_c12_fixed():
+    vals = {"v0": {"float": (-2.5).hex()}, "v1": {"int": 2}, "v2": {"int": 5}, "v3": {"int": 2}}
+    t_sum = ["bin", "add", ["ref", "v0"], ["bin", "mul", ["ref", "v1"], ["lit", {"int": 2}]]]
+    defsets = [[t_sum],
+               [t_sum, ["un", "neg", ["ref", "out0"]], ["builtin", "abs", ["ref", "v0"], []]],
+               [["builtin", "round", ["bin", "truediv", ["ref", "v0"], ["lit", {"int": 3}]], [["ref", "v1"]]],
+                ["call", "fadd", [["ref", "v0"]], [["y", ["ref", "v1"]], ["z", ["item", ["ref", "L"], ["lit", {"int": 1}]]]]]],
+               [["item", ["ref", "L"], ["bin", "mod", ["ref", "v1"], ["lit", {"int": 4}]]], ["builtin", "floor", ["ref", "v0"], []],
+                ["bin", "gt", ["ref", "v0"], ["ref", "v1"]]]]
+    redef = ["bin", "mul", ["ref", "v0"], ["lit", {"int": 10}]]
+    redef2 = ["bin", "sub", ["ref", "v0"], ["ref", "v2"]]
+    states = [([], 1), ([["freeze"]], 1), ([["freeze"], ["set", "v0", fj(9.0)]], 1), ([["freeze"], ["unfreeze"]], 1),
+              ([["freeze"], ["set", "v1", {"int": 3}], ["unfreeze"], ["def", 0, redef2]], 1),
+              ([["def", 0, redef2], ["set", "v0", fj(1.0)], ["freeze"], ["set", "v2", {"int": 8}]], 2),
+              ([["freeze"], ["freeze"]], 1), ([["freeze"], ["def", 0, redef], ["verify"]], 1), ([["val", 0, fj(1.25)]], 2)]
+    follow = [["set", "v0", fj(7.75)], ["verify"], ["def", 0, redef], ["def", 5, ["builtin", "abs", ["ref", "out0"], []]],
+              ["val", 0, fj(1.25)], ["set", "v1", {"int": 3}], ["freeze"], ["set", "v0", fj(0.5)], ["unfreeze"], ["def", 0, redef2],
+              ["set", "v0", fj(-1.0)], ["verify"], ["freeze"], ["def", 0, redef], ["val", 0, {"int": 4}], ["set", "v2", {"int": 6}],
+              ["unfreeze"], ["unfreeze"], ["def", 0, redef], ["set", "v0", fj(3.5)], ["verify"]]
+    for defs in defsets:
+        for prep, trips in states:
+            for refattr in (False, True):
+                yield {"kind": "mgrstate", "vals": vals, "defs": defs, "prep": prep, "trips": trips, "refattr": refattr, "follow": follow}
+
+
+def gen_mgrstate(rng):
+    vals = gen_vals(rng, ["int", "float"])
+    defs = []
+    while len(defs) < rng.randint(1, 3):
+        t = gen_term(rng, rng.randint(1, 3))
+        if "attr" not in json.dumps(t):
+            defs.append(t)
+
+    def event(structural=0.4):
+        x = rng.random()
+        if x < 0.18:
+            return [rng.choice(["freeze", "freeze", "unfreeze"])]
+        if x < 0.24:
+            return ["verify"]
+        if x < 0.24 + structural:
+            i = rng.randrange(len(defs) + 1)
+            if rng.random() < 0.4:
+                return ["val", i, gen_val(rng, rng.choice(["int", "float"]))]
+            t = gen_term(rng, rng.randint(1, 2))
+            return ["def", i, t] if "attr" not in json.dumps(t) else ["verify"]
+        return ["set", rng.choice(NAMES), gen_val(rng, rng.choice(["int", "float"]))]
+    prep = [event(0.25) for _ in range(rng.randint(0, 3))]
+    if rng.random() < 0.5:
+        prep.append(["freeze"])
+    return {"kind": "mgrstate", "vals": vals, "defs": defs, "prep": prep, "trips": 2 if rng.random() < 0.2 else 1,
+            "refattr": rng.random() < 0.3, "follow": [event() for _ in range(rng.randint(2, 7))]}
+
+
+def more_c11_fixed():
+    vals = {"v0": {"float": (1.0).hex()}, "v1": {"float": (2.0).hex()}, "v2": {"int": 5}, "v3": {"int": 7}}
+    v = lambda n: ["ref", n]
+    base = [["out0", ["bin", "add", v("v0"), v("v1")]], ["out1", ["bin", "mul", v("out0"), ["lit", fj(-1.5)]]]]
+    first = [["out2", ["bin", "mul", v("v0"), ["lit", {"int": 2}]]]]
+    second = [["out0", ["bin", "sub", v("v0"), v("v1")]], ["out2", ["bin", "mul", v("v1"), ["lit", {"int": 3}]]]]
+    third = [["out3", ["call", "fadd", [v("v2")], [["y", v("out0")]]]], ["out1", ["builtin", "abs", v("v3"), []]]]
+    pokes = [["v0", fj(10.0)], ["v1", fj(4.0)], ["v0", fj(-0.5)], ["v2", {"int": 1}]]
+    for how in ("clone", "copy"):
+        for call in ("load", "copyfrom"):
+            for ow in (False, True):
+                for events in ([[call, first, True], [call, second, ow]],                       # defined only in the receiver
+                               [["setval", "out0", fj(5.0)], [call, base, ow]],                 # dropped only in the receiver
+                               [["setexpr", "out2", ["bin", "add", v("v1"), ["lit", {"int": 1}]]], [call, second, ow]],
+                               [["setexpr", "out0", ["bin", "mul", v("v0"), v("v1")]], [call, base, ow], [call, third, ow]],
+                               [[call, first, ow], ["setval", "out2", {"int": 4}], [call, first, ow], [call, second, not ow]],
+                               [["poke", "v0", fj(3.0)], [call, second, ow]],                   # not diverged in definitions
+                               [[call, third, True], ["setval", "out1", fj(0.5)], [call, third, ow], [call, base, ow]]):
+                    yield {"kind": "cloneload", "vals": vals, "how": how, "base": base, "events": events, "pokes": pokes}
+
+
+def gen_cloneload(rng):
+    vals = gen_vals(rng, ["int", "float"])
+    targets = ["out0", "out1", "out2", "out3"]
+
+    def term(k):
+        while True:
+            t = gen_term(rng, rng.randint(1, 2), PRINT_OPS)
+            if "complex" not in json.dumps(t) and "attr" not in json.dumps(t):
+                break
+        if k and rng.random() < 0.4:
+            t = ["bin", rng.choice(["add", "mul", "sub"]), t, ["ref", "out%d" % rng.randrange(k)]]      # reads an earlier target
+        return t
+
+    def pairs():
+        ks = sorted(rng.sample(range(4), rng.randint(1, 3)))
+        return [[targets[k], term(k)] for k in ks]
+    base = [[targets[k], term(k)] for k in range(rng.randint(1, 3))]
+    events = []
+    for _ in range(rng.randint(2, 4)):
+        x = rng.random()
+        if x < 0.5:
+            events.append([rng.choice(["load", "load", "copyfrom"]), pairs(), rng.random() < 0.5])
+        elif x < 0.7:
+            events.append(["setval", rng.choice(targets[:len(base) + 1]), gen_val(rng, rng.choice(["int", "float"]))])
+        elif x < 0.85:
+            k = rng.randrange(4)
+            events.append(["setexpr", targets[k], term(k)])
+        else:
+            events.append(["poke", rng.choice(NAMES), gen_val(rng, rng.choice(["int", "float"]))])
+    events.append([rng.choice(["load", "copyfrom"]), pairs(), rng.random() < 0.5])
+    return {"kind": "cloneload", "vals": vals, "how": rng.choice(["clone", "clone", "copy"]), "base": base, "events": events,
+            "pokes": [[rng.choice(NAMES), gen_val(rng, rng.choice(["int", "float"]))] for _ in range(3)]}
+
+
+# keys that are equal under == and hash alike but are different keys, alone and inside tuples (any position, any depth)
+TYPED_KEYS = [1, True, {"f": (1.0).hex()}, 0, False, "b", {"f": (1.5).hex()}, None,
+              {"t": [1, "b"]}, {"t": [True, "b"]}, {"t": [{"f": (1.0).hex()}, "b"]}, {"t": ["b", 1]}, {"t": ["b", True]},
+              {"t": [0, 1]}, {"t": [False, 1]}, {"t": [0, True]}, {"t": [False, True]}, {"t": [1]}, {"t": [True]},
+              {"t": [{"t": [1, 2]}, "b"]}, {"t": [{"t": [True, 2]}, "b"]}, {"t": [{"t": [1, 2]}]}, {"t": [{"t": [{"f": (1.0).hex()}, 2]}]},
+              {"t": [1, None]}, {"t": [True, None]}, {"t": [{"f": (1.5).hex()}, 1]}, {"t": [{"f": (1.5).hex()}, True]},
+              {"t": [2 ** 61, "b"]}, {"t": [1, "b", 0]}, {"t": [1, "b", False]}, {"t": []}]
+
+
+def more_c06(rng):
+    core = [[["i", k]] for k in TYPED_KEYS]
+    core += [[["i", "k"], ["i", {"t": [1, 0]}]], [["i", "k"], ["i", {"t": [True, 0]}]], [["i", {"t": [1, 0]}], ["a", "b"]],
+             [["i", {"t": [True, 0]}], ["a", "b"]], [["a", "b"], ["i", {"t": [1, "b"]}], ["i", 2]], [["a", "b"], ["i", {"t": [True, "b"]}], ["i", 2]]]
+    for p in core:
+        for q in core:
+            yield {"kind": "eqtyped", "p": p, "q": q}
+    for p, q in [(core[8], core[9]), (core[8], core[10]), (core[8], core[8]), (core[19], core[20]), (core[0], core[1])]:
+        for wrap in ("mul2", "neg", "abs", "item0"):
+            yield {"kind": "eqtyped", "p": p, "q": q, "wrap": wrap}
+
+    def step():
+        return ["i", rng.choice(TYPED_KEYS)] if rng.random() < 0.85 else ["a", rng.choice(ATTRS)]
+    fam = [[step() for _ in range(rng.randint(1, 3))] for _ in range(60)]
+    # next to every drawn path, the one that differs from it in the type of ONE element only
+    twins = []
+    for p in fam[:30]:
+        q = json.loads(json.dumps(p))
+        swap = {1: True, True: 1, 0: False, False: 0}
+
+        def retype(k):
+            if isinstance(k, dict) and "t" in k and k["t"]:
+                j = rng.randrange(len(k["t"]))
+                return {"t": k["t"][:j] + [retype(k["t"][j])] + k["t"][j + 1:]}
+            if isinstance(k, (bool, int)) and k in swap:
+                return swap[k] if rng.random() < 0.7 else {"f": float(k).hex()}
+            return k
+        j = rng.randrange(len(q))
+        if q[j][0] == "i":
+            q[j] = ["i", retype(q[j][1])]
+        twins.append(q)
+    yield {"kind": "eqfamily", "paths": fam + twins + core[8:20]}
 
 
 def main():
